@@ -86,5 +86,142 @@ func verifSurvives(res pipeline.ActionResult, ev *pipeline.Event) {
 		out := ev.Root.EncodeToString()
 		chk := insaneJSON.Spawn()
 		vf.Assert(chk.DecodeString(out) == nil, "event-still-valid-json")
+		vf.Assert(verifStrictJSON([]byte(out)), "event-still-strictly-valid-json")
 	}
+}
+
+// verifStrictJSON: RFC 8259 validity of one document (plain Go; the data it sees here is concrete).
+func verifStrictJSON(b []byte) bool {
+	i := 0
+	ws := func() {
+		for i < len(b) && (b[i] == ' ' || b[i] == '\t' || b[i] == '\n' || b[i] == '\r') {
+			i++
+		}
+	}
+	var value func(depth int) bool
+	str := func() bool {
+		if i >= len(b) || b[i] != '"' {
+			return false
+		}
+		i++
+		for i < len(b) {
+			c := b[i]
+			switch {
+			case c == '"':
+				i++
+				return true
+			case c < 0x20:
+				return false
+			case c == '\\':
+				if i+1 >= len(b) {
+					return false
+				}
+				e := b[i+1]
+				if e == 'u' {
+					if i+5 >= len(b) {
+						return false
+					}
+					for k := 2; k < 6; k++ {
+						h := b[i+k]
+						if !(h >= '0' && h <= '9' || h >= 'a' && h <= 'f' || h >= 'A' && h <= 'F') {
+							return false
+						}
+					}
+					i += 6
+				} else if e == '"' || e == '\\' || e == '/' || e == 'b' || e == 'f' || e == 'n' || e == 'r' || e == 't' {
+					i += 2
+				} else {
+					return false
+				}
+			default:
+				i++
+			}
+		}
+		return false
+	}
+	value = func(depth int) bool {
+		ws()
+		if i >= len(b) || depth > 8 {
+			return false
+		}
+		switch c := b[i]; {
+		case c == '"':
+			return str()
+		case c == '{':
+			i++
+			ws()
+			if i < len(b) && b[i] == '}' {
+				i++
+				return true
+			}
+			for {
+				ws()
+				if !str() {
+					return false
+				}
+				ws()
+				if i >= len(b) || b[i] != ':' {
+					return false
+				}
+				i++
+				if !value(depth + 1) {
+					return false
+				}
+				ws()
+				if i < len(b) && b[i] == ',' {
+					i++
+					continue
+				}
+				if i < len(b) && b[i] == '}' {
+					i++
+					return true
+				}
+				return false
+			}
+		case c == '[':
+			i++
+			ws()
+			if i < len(b) && b[i] == ']' {
+				i++
+				return true
+			}
+			for {
+				if !value(depth + 1) {
+					return false
+				}
+				ws()
+				if i < len(b) && b[i] == ',' {
+					i++
+					continue
+				}
+				if i < len(b) && b[i] == ']' {
+					i++
+					return true
+				}
+				return false
+			}
+		case c == '-' || c >= '0' && c <= '9':
+			st := i
+			if c == '-' {
+				i++
+			}
+			for i < len(b) && (b[i] >= '0' && b[i] <= '9' || b[i] == '.' || b[i] == 'e' || b[i] == 'E' || b[i] == '+' || b[i] == '-') {
+				i++
+			}
+			return i > st && b[i-1] >= '0' && b[i-1] <= '9'
+		default:
+			for _, lit := range []string{"true", "false", "null"} {
+				if i+len(lit) <= len(b) && string(b[i:i+len(lit)]) == lit {
+					i += len(lit)
+					return true
+				}
+			}
+			return false
+		}
+	}
+	if !value(0) {
+		return false
+	}
+	ws()
+	return i == len(b)
 }
